@@ -796,6 +796,26 @@ def check_oracles(w):
                     out["C02"].append(("quiescent, yet a finished flow still has its handler (and its socket): "
                                        "the last flag was set by pre_select, no callback follows",
                                        {"side": side, "flow": f, "ok": bool(p.ok), "finding_id": "F20"}))
+    # an end that is still paused when nothing moves any more has no acknowledgement to wait for
+    if getattr(w, "calm", 0) >= 3 and not w.crash and w.latency:
+        for side in ("c", "s"):
+            m = w.mux[side]
+            if m.too_full:
+                out["C09"].append(("quiescent while an end is still paused: every queue and link is drained, so no "
+                                   "acknowledgement is outstanding and transfers can never resume",
+                                   {"side": side, "fullness": m.fullness, "budget": w.lbs}))
+    # a finished wrapper (both directions shut) must have released its identifier
+    if getattr(w, "calm", 0) >= 3 and not w.crash:
+        for side in ("c", "s"):
+            m = w.mux[side]
+            for f, p in enumerate(w.prox[side]):
+                mw = p.wrap2 if side == "c" else p.wrap1
+                cb = m.channels.get(mw.channel)
+                if mw.shut_read and mw.shut_write and cb is not None and getattr(cb, "__self__", None) is mw:
+                    det = {"side": side, "flow": f, "identifier": mw.channel, "buffered": sum(len(b) for b in mw.buf)}
+                    out["C02"].append(("quiescent, both directions of a flow are shut, yet its identifier is still registered "
+                                       "(never reusable)", det))
+                    out["C06"].append(("the channel table still holds the identifier of a wrapper whose both directions are shut", det))
     # at quiescence no complete message may sit undispatched in a Mux input buffer
     if getattr(w, "calm", 0) >= 3 and not w.crash:
         for side in ("c", "s"):
